@@ -78,6 +78,46 @@ def detect(wt, n, props):
     return res
 
 
+def detect_scratch(wt, n, props):
+    """Like detect, but without touching /repo's working tree: the change is applied to a scratch
+    worktree and a copy of the sim workspace is pointed at it (used while background runs that
+    build from /repo are in flight)."""
+    diff = os.path.join(wt, "_out", "change%s.diff" % n)
+    tag = "%s-%s" % (os.path.basename(wt), n)
+    scratch = "/tmp/mhscratch-" + tag
+    simcopy = "/tmp/mhsimcopy-" + tag
+    res = {}
+    tmp = tempfile.mkdtemp(prefix="mhseed")
+    shutil.copy(os.path.join(VERIF, "known_findings.json"), tmp)
+    try:
+        sh("git -C /repo worktree add --detach %s HEAD -q" % scratch)
+        rc, o = sh("git apply %s" % diff, cwd=scratch)
+        if rc != 0:
+            print("apply failed", o)
+            return res
+        sh("rm -rf %s; mkdir -p %s; cd %s && tar cf - --exclude=target --exclude=target-small . | (cd %s && tar xf -)" % (simcopy, simcopy, SIM, simcopy))
+        mf = os.path.join(simcopy, "mh", "Cargo.toml")
+        text = open(mf).read().replace("/repo/src/lib.rs", scratch + "/src/lib.rs")
+        open(mf, "w").write(text)
+        rc, o = sh("CARGO_TARGET_DIR=/tmp/mhsim-target-%s cargo build --release --offline --quiet" % tag, cwd=simcopy)
+        if rc != 0:
+            print("build failed", o[-2000:])
+            return res
+        binp = "/tmp/mhsim-target-%s/release/mhsim" % tag
+        for p in props:
+            t0 = time.time()
+            rc, o = sh("%s run --prop %s --tier quick --no-evidence --verif-dir %s" % (binp, p, tmp))
+            cls = [l.strip() for l in o.splitlines() if l.strip().startswith("class=")]
+            det = [l.strip() for l in o.splitlines() if l.strip().startswith("detail=")]
+            res[p] = {"exit": rc, "class": cls[:1], "detail": [x[:300] for x in det[:1]], "s": round(time.time() - t0, 1)}
+    finally:
+        sh("git -C /repo worktree remove --force %s" % scratch)
+        shutil.rmtree(simcopy, ignore_errors=True)
+        shutil.rmtree("/tmp/mhsim-target-%s" % tag, ignore_errors=True)
+        shutil.rmtree(tmp, ignore_errors=True)
+    return res
+
+
 def keep(wt, n, sid, prop, meta):
     d = os.path.join(VERIF, "seeded", sid)
     os.makedirs(d, exist_ok=True)
@@ -94,5 +134,7 @@ if __name__ == "__main__":
         print(json.dumps(confirm(sys.argv[2], sys.argv[3]), indent=1))
     elif cmd == "detect":
         print(json.dumps(detect(sys.argv[2], sys.argv[3], sys.argv[4:]), indent=1))
+    elif cmd == "detect_scratch":
+        print(json.dumps(detect_scratch(sys.argv[2], sys.argv[3], sys.argv[4:]), indent=1))
     elif cmd == "keep":
         keep(*sys.argv[2:7])
